@@ -119,9 +119,21 @@ pub struct Env<'a> {
 
 pub struct ParseError(pub String);
 
+/// How the configuration reaches the pass.
+pub enum Config {
+    /// native embedding: the host deserialised the configuration itself and constructs the visitor
+    Native(Options),
+    /// plugin: the host hands over the configuration string (None: no configuration) and calls the
+    /// plugin's entry function - the real `/repo/plugin/src/lib.rs`, see sim/plugin-entry
+    #[allow(dead_code)]
+    Plugin(Option<String>),
+}
+
+pub const PLUGIN_ENTRY_COMPILED: bool = cfg!(feature = "plugin-entry");
+
 /// Runs inside `GLOBALS.set` on the calling thread. Yields (through `seams::yield_point`)
 /// between phases; everything in between that can yield is a hook inside the pass or a seam.
-pub fn run_file(env: Env<'_>, src: &str, ts: bool, script: bool, opts: Options, noise: &Noise) -> Result<Output, ParseError> {
+pub fn run_file(env: Env<'_>, src: &str, ts: bool, script: bool, cfg: Config, noise: &Noise) -> Result<Output, ParseError> {
     seams::set_phase(Phase::Setup);
     for i in 0..noise.pad_files {
         env.cm.new_source_file(FileName::Custom(format!("pad{i}")).into(), " ".repeat(1 + (noise.seed as usize + i as usize * 7) % 97));
@@ -177,6 +189,8 @@ pub fn run_file(env: Env<'_>, src: &str, ts: bool, script: bool, opts: Options, 
     };
     let comments = env.comments;
     let cm = env.cm;
+    let file_name = env.file_name.clone();
+    let _ = &file_name;
 
     let r = HANDLER.set(handler, || -> Result<(String, String, String), ParseError> {
         seams::set_phase(Phase::Parse);
@@ -209,7 +223,28 @@ pub fn run_file(env: Env<'_>, src: &str, ts: bool, script: bool, opts: Options, 
         seams::yield_point("phase.resolved");
 
         seams::set_phase(Phase::Transform);
-        program.mutate(visit_mut_pass(VueJsxTransformVisitor::new(opts, unresolved_mark, comments.clone())));
+        match cfg {
+            Config::Native(opts) => program.mutate(visit_mut_pass(VueJsxTransformVisitor::new(opts, unresolved_mark, comments.clone()))),
+            #[cfg(feature = "plugin-entry")]
+            Config::Plugin(config) => {
+                use verif_plugin_entry::shim::{PluginCommentsProxy, PluginSourceMapProxy, TransformPluginProgramMetadata};
+                let metadata = TransformPluginProgramMetadata {
+                    comments: comments.clone().map(|c| PluginCommentsProxy(std::rc::Rc::new(c))),
+                    source_map: PluginSourceMapProxy { file_name: Some(file_name.clone()) },
+                    unresolved_mark,
+                    config,
+                };
+                program = verif_plugin_entry::plugin_transform_entry(program, metadata);
+            }
+            #[cfg(not(feature = "plugin-entry"))]
+            Config::Plugin(config) => {
+                let opts = match config {
+                    Some(json) => serde_json::from_str::<Options>(&json).expect("failed to parse config of plugin 'vue-jsx'"),
+                    None => Options::default(),
+                };
+                program.mutate(visit_mut_pass(VueJsxTransformVisitor::new(opts, unresolved_mark, comments.clone())))
+            }
+        }
         seams::yield_point("phase.transformed");
 
         seams::set_phase(Phase::Print);
